@@ -320,6 +320,20 @@ func goCall(c *ast.CallExpr) string {
 	return "GUnknown"
 }
 
+// isRegexpCompile matches `re, err := regexp.Compile(P)`.
+func isRegexpCompile(st ast.Stmt) bool {
+	as, ok := st.(*ast.AssignStmt)
+	if !ok || as.Tok != token.DEFINE || len(as.Lhs) != 2 || len(as.Rhs) != 1 || !isIdent(as.Lhs[0], "re") || !isIdent(as.Lhs[1], "err") {
+		return false
+	}
+	c, ok := as.Rhs[0].(*ast.CallExpr)
+	if !ok || len(c.Args) != 1 {
+		return false
+	}
+	p, f, ok := pkgCall(c)
+	return ok && p == "regexp" && f == "Compile"
+}
+
 func isIdent(e ast.Expr, name string) bool {
 	id, ok := e.(*ast.Ident)
 	return ok && id.Name == name
@@ -398,6 +412,30 @@ func closure(fl *ast.FuncLit) string {
 		if isIdent(ret, "false") && blockReturns(is.Body, "true") {
 			return fmt.Sprintf("(GExists %s %s %s)", coqterm.Bytes(x), GoExpr(r), GoExpr(is.Cond))
 		}
+	case rt == "bool" && len(body) == 3 && isRegexpCompile(body[0]):
+		// re, err := regexp.Compile(P); if err != nil { return false }; return re.MatchString(S)
+		as := body[0].(*ast.AssignStmt)
+		pat := as.Rhs[0].(*ast.CallExpr).Args[0]
+		is, ok := body[1].(*ast.IfStmt)
+		if !ok || is.Init != nil || is.Else != nil || !blockReturns(is.Body, "false") {
+			return "GUnknown"
+		}
+		if cnd, ok := is.Cond.(*ast.BinaryExpr); !ok || cnd.Op != token.NEQ || !isIdent(cnd.X, "err") || !isIdent(cnd.Y, "nil") {
+			return "GUnknown"
+		}
+		ret, ok := returns(body[2])
+		if !ok {
+			return "GUnknown"
+		}
+		call, ok := ret.(*ast.CallExpr)
+		if !ok || len(call.Args) != 1 {
+			return "GUnknown"
+		}
+		sel, ok := call.Fun.(*ast.SelectorExpr)
+		if !ok || sel.Sel.Name != "MatchString" || !isIdent(sel.X, "re") {
+			return "GUnknown"
+		}
+		return fmt.Sprintf("(GMatchSafe %s %s)", GoExpr(pat), GoExpr(call.Args[0]))
 	case rt == "bool" && len(body) == 3:
 		// count := 0; for _, x := range R { if C { count++; if count > 1 { return false } } }; return count == 1
 		as, ok := body[0].(*ast.AssignStmt)
